@@ -438,9 +438,12 @@ type Explorer struct {
 	inSummary  int
 	countFns   bool
 	curPathLog []string
+	Deadline   time.Time          // exploration stops (unit undecided) when this instant has passed
 	candHint   []uint64           // candidate values for the next NewVar (set by the harness API just before)
 	feas       map[*Term][]uint64 // finite-domain filter: remaining candidates per listed variable on this path
 	FDImplied  int64
+	FDSolved   int64 // path conditions decided on the candidate lists alone (no solver query)
+	FDConfirmed int64 // verdicts of the filter that were also put to the solver (sampled) and agreed
 }
 
 // X is the explorer of this process (one unit at a time).
@@ -611,8 +614,27 @@ func (x *Explorer) next() bool {
 		d.taken = !d.taken
 		d.flipped = true
 		ls := x.literals()
-		res, m := x.S.Check(ls, x.newGlob, true)
-		x.newGlob = nil
+		var res string
+		var m Model
+		if sat, fm, ok := x.fdSolve(ls); ok {
+			// every literal is a condition over one listed variable: decided on the candidate lists (fd.go)
+			x.FDSolved++
+			res, m = "unsat", nil
+			if sat {
+				res, m = "sat", fm
+			}
+			if fdConfirm() {
+				x.FDConfirmed++
+				r2, _ := x.S.Check(ls, x.newGlob, false)
+				x.newGlob = nil
+				if r2 != res {
+					panic(engineBug(fmt.Sprintf("finite-domain solve says %s, the solver %s", res, r2)))
+				}
+			}
+		} else {
+			res, m = x.S.Check(ls, x.newGlob, true)
+			x.newGlob = nil
+		}
 		switch res {
 		case "sat":
 			x.model = m
@@ -703,6 +725,11 @@ func (x *Explorer) Explore(check func()) {
 		first = false
 		if x.Paths >= x.PathBudget {
 			x.addUndecided("path-budget")
+			break
+		}
+		if !x.Deadline.IsZero() && time.Now().After(x.Deadline) {
+			// the unit's time budget is used up: what was explored so far is reported, the unit is undecided
+			x.addUndecided("time-budget")
 			break
 		}
 		x.idx = 0
